@@ -111,10 +111,40 @@ def facts_step(check, ctx):
                          s["sends"], s["chan"], s["send_tail"], s["launch_form"], s["launch_count"], s["recv_per_iter"], s["recv_bound"],
                          s["callees_scanned"], len(s["callee_writes"])))
     info.setdefault("samples", []).extend(ex)
+    if facts["violations"]:
+        _probe_families(check, ctx)
     log("C05 run facts: %d sites (%s), %d events, %d violations, lean %s"
         % (len(sites), ", ".join("%s=%d" % kv for kv in sorted(by_kind.items())), n_events, len(facts["violations"]),
            "rewritten" if old != src else "unchanged"))
     return problems
+
+
+def _probe_families(check, ctx):
+    """The structural rules are violated: the real code may now crash the harness GENERATOR process itself (some case generators
+    warm the model up in-process; a goroutine panic there cannot be recovered) — which vlib.core would report as an internal error
+    instead of a verdict. Run every family once in a scratch directory first; a family whose generator dies is dropped from this run
+    and its crash is recorded as one more failing input."""
+    keep = []
+    dropped = []
+    for fam in check.families:
+        if fam.thorough_only and ctx["tier"] != "thorough":
+            keep.append(fam)
+            continue
+        d = os.path.join(ctx["workdir"], "probe-" + fam.label)
+        os.makedirs(d, exist_ok=True)
+        r = core.run([ctx["harness"], "gen", fam.name, "-seed", str(ctx["seed"]), "-tier", ctx["tier"], "-dir", d] + fam.args,
+                     cwd=d, env=dict(GOENV, GOMEMLIMIT="6GiB", OW_HARNESS=ctx["harness"]))
+        shutil.rmtree(d, ignore_errors=True)
+        if r.returncode == 0:
+            keep.append(fam)
+        else:
+            dropped.append(fam.label)
+            _oracle(ctx, "harness-crash:" + fam.label,
+                    "the harness generator of family %s died while driving the real code (goroutine panic?):\n%s"
+                    % (fam.label, (r.stderr or "")[-3000:]), family=fam.label)
+    if dropped:
+        check.families = keep
+        ctx["info"]["c05_families_dropped_after_generator_crash"] = dropped
 
 
 # ---------------------------------------------------------------------------------------------
@@ -138,7 +168,9 @@ def build_race(ctx, pkg, name):
     with core.Lock("gobuild-" + os.path.basename(out)):
         t0 = time.time()
         tmp = out + ".%d" % os.getpid()
-        r = core.run(["go", "build", "-race", "-tags", "verif", "-o", tmp, pkg], cwd=hdir, env=GOENV)
+        # -race switches on -d=checkptr, which rejects cdata.NewFloat64CArray on a Go-allocated buffer (the harness's stand-in for
+        # C memory: "converted pointer straddles multiple allocations"); that is not a race, so checkptr is switched off again
+        r = core.run(["go", "build", "-race", "-gcflags=all=-d=checkptr=0", "-tags", "verif", "-o", tmp, pkg], cwd=hdir, env=GOENV)
         if r.returncode != 0:
             return None, (r.stderr or "")[-3000:]
         os.replace(tmp, out)
@@ -147,6 +179,19 @@ def build_race(ctx, pkg, name):
 
 RACE_HDR = re.compile(r"WARNING: DATA RACE")
 RUN_FRAME = re.compile(r"\(\*(\w+)\)\.Run\b")
+
+
+def _series_len(opline):
+    """T of a W ops line `W id Model backend nspec spec… nRows nSets params… nBlocks nInputs T …` (None if unreadable)."""
+    try:
+        t = opline.split()
+        i = 4
+        i += 1 + int(t[i])
+        rows, sets = int(t[i]), int(t[i + 1])
+        i += 2 + rows * sets
+        return int(t[i + 2])
+    except (ValueError, IndexError):
+        return None
 
 
 def _race_reports(logprefix):
@@ -200,14 +245,22 @@ def race_step(check, ctx):
                 for line in open(os.path.join(d, "W.ops")):
                     t = line.split(None, 3)
                     if len(t) > 2 and t[1] in ids:
-                        crashed.append((t[1], t[2], line.rstrip("\n")[:4000]))
+                        crashed.append((t[1], t[2], line.rstrip("\n")[:4000], t[3].split(None, 1)[0], _series_len(line)))
         reps = _race_reports(logprefix)
         for k, (path, txt) in enumerate(reps):
             m = RUN_FRAME.search(txt)
             model = m.group(1) if m else (crashed[k][1] if k < len(crashed) else "unknown")
-            op = next((c[2] for c in crashed if c[1] == model), crashed[k][2] if k < len(crashed) else "")
-            _oracle(ctx, "race:" + model,
-                    "race detector report, family W, GOMAXPROCS=%d, model %s:\n%s" % (procs, model, txt[:5000]), op=op, family="W-race-p%d" % procs)
+            cands = [c for c in crashed if c[1] == model] or crashed[k:k + 1]
+            cands.sort(key=lambda c: 0 if c[4] == 0 else 1)
+            case = cands[0] if cands else None
+            scope = "race:" + model
+            note = ""
+            if case and case[4] == 0 and case[3] == "c":
+                # empty series on C-backed (unchecked) arrays: a kernel that touches element 0 writes outside its (empty) row
+                scope += ":empty-series"
+                note = " [series length 0, C-backed arrays: out-of-bounds access of an empty row]"
+            _oracle(ctx, scope, "race detector report, family W, GOMAXPROCS=%d, model %s%s:\n%s" % (procs, model, note, txt[:5000]),
+                    op=case[2] if case else "", family="W-p%d" % procs)
         for of in stats.get("oracle_failures") or []:
             of["family"] = "W-race-p%d" % procs
             ctx.setdefault("oracle_failures", []).append(of)
